@@ -217,18 +217,12 @@ func (g *Generator) convertScalarField(field *protogen.Field) *base.SchemaProxy 
 	// Add field examples if available
 	if examples := annotations.GetFieldExamples(field); len(examples) > 0 {
 		// Set the first example as the default example
-		schema.Example = &yaml.Node{
-			Kind:  yaml.ScalarNode,
-			Value: examples[0],
-		}
+		schema.Example = exampleNode(examples[0], schema.Type)
 
 		// Add all examples using OpenAPI 3.1 examples array format
 		schema.Examples = make([]*yaml.Node, len(examples))
 		for i, example := range examples {
-			schema.Examples[i] = &yaml.Node{
-				Kind:  yaml.ScalarNode,
-				Value: example,
-			}
+			schema.Examples[i] = exampleNode(example, schema.Type)
 		}
 	}
 
@@ -390,10 +384,7 @@ func convertHeadersToParameters(headers []*http.Header) []*v3.Parameter {
 
 		// Add example if specified
 		if header.GetExample() != "" {
-			schema.Example = &yaml.Node{
-				Kind:  yaml.ScalarNode,
-				Value: header.GetExample(),
-			}
+			schema.Example = exampleNode(header.GetExample(), schema.Type)
 		}
 
 		// Create the parameter
@@ -479,4 +470,17 @@ func appendInt64PrecisionWarning(schema *base.Schema) {
 	} else {
 		schema.Description = int64PrecisionWarning
 	}
+}
+
+// exampleNode renders an example value. The example of a string-typed schema is a string whatever
+// it looks like: it is tagged as such, so that texts like 2024-01-15, 007, 1e3, .inf, yes or ~ are
+// quoted in the YAML rendering and stay strings in the JSON one.
+func exampleNode(value string, schemaTypes []string) *yaml.Node {
+	node := &yaml.Node{Kind: yaml.ScalarNode, Value: value}
+	for _, t := range schemaTypes {
+		if t == "string" {
+			node.Tag = "!!str"
+		}
+	}
+	return node
 }
